@@ -11,9 +11,22 @@ CHECK = {
              "ray lattice. Inputs: all bundled *.org.json; the product leaf solid x object transform x "
              "placement (global/background/daughter depth 1-3 x daughter transform) x tolerance x label "
              "style through UnitProto/InputBuilder; hand-written units containing every surface type; "
-             "rect arrays 1..3 cells per axis (direct/intermediate/nested); a VolumeInput field lattice "
-             "(z-order x bbox kind x flags 0..15 x logic strings x labels, all transform forms); every "
-             "binary exponent x 6 mantissa patterns x sign as surface data. non-trivial = a distinct "
+             "rect arrays 1..3 cells per axis (direct/intermediate/nested; cell translations: cell centres, "
+             "exact zero, NoTransformation, and tiny non-zero ones that must stay Translations); a "
+             "VolumeInput field lattice (z-order x 6 volume-bbox kinds [infinite, finite, mixed, null, two "
+             "half spaces] x flags 0..15 x logic strings x labels, all transform forms; unit-bbox kind "
+             "[finite, unbounded along x, half space, infinite] x volume-bbox kind at z-order M and x "
+             "z-order at the finite volume bbox); units holding one volume with EMPTY logic + implicit_vol "
+             "(z-orders M, x, B); every binary exponent x 6 mantissa patterns x sign as surface data; an "
+             "array with 12 cells of extreme and of tiny non-zero translations; two literal legacy (SCALE "
+             "v0) texts reaching the reader-only spellings (cells/cell_names/surface_names, "
+             "parent_volumes, flat unit translations with a zero triple, integer z-orders 1-4 and 65534, "
+             "'simple unit' / 'rectangular array', array parent_cells = a non-identity permutation), "
+             "decoded independently and compared with what the reader produced, then round-tripped and "
+             "navigated. For families file, row, arr and legacy the text is also written to "
+             "<tmp>/geo.v1.json-like.org.json and OrangeParams(\"....org.json\") and "
+             "OrangeParams(\"....gdml\") (documented fallback to .org.json without Geant4) must navigate "
+             "identically to OrangeParams(input) on the small ray lattice. non-trivial = a distinct "
              "structure class (set of structural tags: surface types, transform types, z-orders, flags, "
              "bbox kinds, label kinds, depth, array shape, leaf/placement)."),
     "assumptions": [
@@ -24,6 +37,10 @@ CHECK = {
         "bounding-box coordinates equal to +-DBL_MAX are not generated (the schema reserves them for +-inf)",
         "hand-written 'lat' and 'ext' inputs are compared structurally only (they are not consistent "
         "geometries); all other families are also navigated",
+        "legacy integer z-order of the global exterior is not in the alphabet: the reader maps 65533 to "
+        "'exterior' while a 16-bit -1 is 65535, and nothing documents which one the SCALE exporter wrote",
+        "the orange-update application (app/orange-update.cc) is not built in the verification build "
+        "and is not executed; its reader/writer calls are the ones exercised through operator<< / >>",
     ],
     "bounds": {"quick": {"ray_lattice": "4^3 start points x 16 directions", "max_crossings": 1000,
                          "builder_product": "13 leaves x 7 object transforms x 15 placements x 3 tolerances x 2 label styles + 12x12x3 boolean pairs",
@@ -47,8 +64,12 @@ META = {
     "text": ("Every input of the stated finite space is pushed through the real writer and reader; the result "
              "is compared field by field by code that shares nothing with the I/O layer, the second dump must be "
              "a fixpoint, and geometry built from the original and from the re-read input must navigate "
-             "bit-identically on a fixed ray lattice."),
+             "bit-identically on a fixed ray lattice; the same holds for geometry loaded through the "
+             "file-name entry points of OrangeParams."),
     "note": ("Values between lattice points are not covered; labels containing '@' and bbox coordinates of exactly "
              "+-DBL_MAX are excluded as outside the schema's conventions. A unit-level null bounding box is read "
-             "back as infinite (writer omits it); no constructed or bundled input has one."),
+             "back as infinite (writer omits it); no constructed or bundled input has one. Found on the "
+             "original tree: a VolumeInput with empty logic + implicit_vol is written without a 'logic' key "
+             "and cannot be read back (signature roundtrip:empty-logic-volume-not-readable, "
+             "proposed_findings/C19.json, repro harness/c19_repro_empty_logic.cc)."),
 }
